@@ -342,8 +342,8 @@ Definition table_ok (ps : list prefix) : bool :=
   end.
 
 (* Huffman search: the prefix whose code is a prefix of the stream.  (The real reader
-   uses a 6-bit-stride table; on a complete prefix-free tree with the code fully
-   available the result is the same.) *)
+   uses a tree of tables with strides of up to [stride] bits; on a complete prefix-free tree
+   with the code fully available the result is the same.) *)
 Fixpoint is_prefix_of (c s : bits) : bool :=
   match c, s with
   | [], _ => true
@@ -362,8 +362,8 @@ Definition read_code (ps : list prefix) (s : bits) : res (prefix * bits) :=
   end.
 
 (* Huffman search as the real reader performs it (huffman_decoding.rs, bit_reader.rs
-   read_prefix_table_idx): a tree of tables with strides of up to 6 bits.  With plenty of
-   data this is [read_code]; near the end of the available data the outcome depends on how
+   read_prefix_table_idx): a tree of tables with strides of up to [stride] bits.  With
+   plenty of data this is [read_code]; near the end of the available data the outcome depends on how
    many bits are left for the current stride and on where the 64-bit word boundary falls:
      - stride fits in the current word: min(stride, bits left) bits are read;
      - stride crosses into a word that exists: the whole stride is read (zero padding
@@ -377,6 +377,10 @@ Fixpoint compatible (c b : bits) : bool :=
   | x :: c', y :: b' => Bool.eqb x y && compatible c' b'
   | _, _ => true
   end.
+(* the widest stride of the table tree: MAX_PREFIX_TABLE_SIZE_LOG (constants.rs), taken from
+   the generated Consts.v (6 in the repository).  About its value the proofs use only the
+   bounds stride_pos, stride_le_footer, stride_reach of Lemmas/CodecL.v. *)
+Definition stride : nat := N.to_nat Consts.MAX_PREFIX_TABLE_SIZE_LOG.
 Fixpoint tsearch (fuel : nat) (tb : N) (cands : list prefix) (dpt : nat) (s : bits) : res prefix :=
   match cands with
   | [p] => Ok p
@@ -384,12 +388,13 @@ Fixpoint tsearch (fuel : nat) (tb : N) (cands : list prefix) (dpt : nat) (s : bi
     match fuel with
     | O => Err InsufficientData
     | S f =>
-      let t := Nat.min 6 (max_code_len cands - dpt) in
-      (* only the first 70 bits matter: with 70 or more bits left every stride is read in
-         full wherever the word boundary is, so the position is not even computed then *)
-      let a := length (firstn 70 s) in
+      let t := Nat.min stride (max_code_len cands - dpt) in
+      (* only the first 64 + stride bits matter: with that many or more bits left every stride
+         is read in full wherever the word boundary is, so the position is not even computed
+         then *)
+      let a := length (firstn (64 + stride) s) in
       if Nat.eqb a 0 then Err InsufficientData else
-      let j := if Nat.ltb a 70 then N.to_nat ((tb - Nlen s) mod 64) else O in
+      let j := if Nat.ltb a (64 + stride) then N.to_nat ((tb - Nlen s) mod 64) else O in
       let e := (64 - j)%nat in
       if negb (Nat.leb (t + j) 64) && negb (Nat.ltb e a) then
         (* the short read at the end of the last word leaves the reader's position a whole
